@@ -25,7 +25,7 @@ FORBIDDEN = re.compile(
 
 ALLOWED_AXIOMS = set()  # none: every property theorem must be closed under the global context
 
-ENV = dict(os.environ, CARGO_NET_OFFLINE="true", VERIF_REPO=REPO)
+ENV = dict(os.environ, CARGO_NET_OFFLINE="true", VERIF_REPO=REPO, VERIF_ROOT=ROOT)
 
 
 def cargo_paths_override():
